@@ -16,6 +16,12 @@ ground truth).
      census, contexts, FIFO bookkeeping kept by the driver).  Every behaviour
      is then drained (all transfers completed) and "nobody left behind" checked.
   4. TLC -simulate: long random event sequences replayed the same way.
+  5. Application level (driver e2e-queue): a real `thru host --max-receivers M`
+     and M+2 real `thru join` processes started together over the real
+     thruserv; every join must finish with the identical tree, and on the
+     host's hook trace the transfers between host.emit.start and
+     host.transfer.end / host.peer.left.released never exceed M and start in
+     the order in which the receivers were queued.
 """
 import os
 import vlib
@@ -76,12 +82,23 @@ def run(tier, seed):
         refuted[name] = rn['violated']
         if not rn['violated']:
             raise vlib.HarnessTrouble("negative config %s not refuted (vacuous spec?)" % name)
+    # the application level: a real host with --max-receivers M and M+2 real joins started together
+    srvb = vlib.build_repo_bin('./cmd/thruserv', 'thruserv')
+    thru = vlib.build_repo_bin('./cmd/thru', 'thru')
+    eq = vlib.run_vh_sharded(['e2e-queue', '-n', '4' if tier == "quick" else '16', '-seed', str(seed), '-thruserv', srvb, '-thru', thru], 4, timeout=1800)
+    for viol in eq['violations']:
+        sig = dict(viol['sig'])
+        if sig.pop('prop', None) == PROP:
+            v.violation(sig, viol.get('replay'))
+        else:
+            print("NOTE C12: a multi-receiver session showed an anomaly that belongs to another property: %s" % sig)
     if tot['drift']:
         print("DRIFT C12: %d behaviours where the real SnapshotSender differs from Admission.tla (not a verdict)" % tot['drift'])
     v.coverage = dict(
         states=tot['states'], transitions=tot['transitions'],
         traces_validated_against_impl=tot['behaviours'],
         samples=samples[:6], exhaustive=True,
+        real_binary_sessions=dict(scenarios=eq['behaviours'], outcomes=eq['extra'].get('outcomes')),
         tlc=dict(exhaustive_runs=tlc_runs, simulate=dict(traces_per_max=nsim, depth=dsim, states=sim_states),
                  negative_configs_refuted=refuted),
         replay=dict(behaviours=tot['behaviours'], steps=tot['steps'], drift=tot['drift'],
